@@ -102,16 +102,34 @@ C08_FileOrderKept(feed, r, acc) ==
     /\ \A i \in DOMAIN r.stops : r.stops[i].id = Tok(Cell(RowOf(feed, acc, "stops.txt", i), "stop_id"))
     /\ \A i \in DOMAIN r.trips : r.trips[i].id = Tok(Cell(RowOf(feed, acc, "trips.txt", i), "trip_id"))
 
+(* a trip's frequencies are the valid frequencies.txt rows naming it, in file order (they go to the last trip with that id) *)
+ValidFreqRow(row) ==
+    /\ ~Missing(row, {"trip_id", "start_time", "end_time", "headway_secs"})
+    /\ IsSome(IntOf(Cell(row, "headway_secs"))) /\ IsSome(TimeOf(Cell(row, "start_time"))) /\ IsSome(TimeOf(Cell(row, "end_time")))
+C08_FrequenciesKeepFileOrder(feed, r) ==
+    \A t \in DOMAIN r.trips :
+        LET mine == FilterSeq(LAMBDA row : ValidFreqRow(row) /\ Tok(Cell(row, "trip_id")) = r.trips[t].id, Rows(feed, "frequencies.txt"))
+            last == \A u \in DOMAIN r.trips : r.trips[u].id = r.trips[t].id => u <= t
+        IN r.trips[t].freqs = (IF last THEN [k \in DOMAIN mine |-> [start |-> Val(TimeOf(Cell(mine[k], "start_time"))), end |-> Val(TimeOf(Cell(mine[k], "end_time"))),
+                                                                   headway |-> Val(IntOf(Cell(mine[k], "headway_secs"))),
+                                                                   exact |-> ExactTimesOf(Digit(Cell(mine[k], "exact_times")))]]
+                               ELSE <<>>)
+
 (* ------------------------------------------------------------------ C09 *)
 NoWarnings(r) == [r EXCEPT !.warnings = <<>>]
 C09_Inert(r, rBase) == NoWarnings(r) = NoWarnings(rBase)
 C09_WarningsDescribeTheRow(feed, r, warnOk) ==
     /\ Len(warnOk) = Len(r.warnings)
     /\ \A i \in DOMAIN r.warnings :
-         /\ r.warnings[i].file = "agency.txt"
-         /\ InRange(r.warnings[i].row, Rows(feed, "agency.txt"))
-         /\ Missing(Rows(feed, "agency.txt")[r.warnings[i].row], {"agency_name", "agency_url", "agency_timezone"})
-         /\ warnOk[i]
+         \/ (* a rejected row *)
+            /\ r.warnings[i].file = "agency.txt"
+            /\ InRange(r.warnings[i].row, Rows(feed, "agency.txt"))
+            /\ Missing(Rows(feed, "agency.txt")[r.warnings[i].row], {"agency_name", "agency_url", "agency_timezone"})
+            /\ warnOk[i]
+         \/ (* the header itself lacks a required column: the warning is about row 0 and shows the header *)
+            /\ r.warnings[i].file = "agency.txt:warnings.MissingColumns" /\ r.warnings[i].row = 0
+            /\ MissingCols(feed, "agency.txt") # {}
+            /\ warnOk[i]
 
 (* ------------------------------------------------------------------ C10 *)
 (* enabling wheelchair inheritance changes exactly the stops whose own value is unspecified and whose parent is a station *)
